@@ -26,6 +26,10 @@ QUERIES = ["", "?a=1&b=2"]
 FRAGS = ["", "#f"]
 
 
+# an authority with userinfo and/or a port but no host (legal outside the schemes that require one)
+EMPTY_HOST = ["x://u:p@:8042/p", "//u@:80/x?a=1", "x://:8042/p#f", "//@/x", "foo://user:pw@:8042/p?q=1#frag", "x://u@/a/b.txt"]
+
+
 def ops():
     out = []
     for s in ["https", "HTTP", "x", "ws"]:
@@ -65,12 +69,20 @@ def run(ctx):
         bases = bases[ctx.seed % 17::17]
     bases += gens.structured_urls(ctx.rng, 150 if ctx.quick else 3000)
     OPS = ops()
+    bases = EMPTY_HOST + bases
     bases = [f["witness"][0][1][1] for f in ctx.findings if f.get("witness")] + bases
     before = core.check_suite(ctx, "C11-bases", [("observe", [0, [["push", ["url", b]]]]) for b in bases], split=True)
     reqs, meta = [], []
     for bi, b in enumerate(bases):
         for kind, kq, kf, isnone, op in OPS:
             reqs.append(("observe", [0, [["push", ["url", b]], op]]))
+            meta.append((bi, kind, kq, kf, isnone))
+    # the same modifiers on receivers whose authority parts are NOT pre-computed (an unpickled copy has an empty
+    # cache: every part is split from the stored authority on first use), including authorities with an empty host
+    lazy = [bi for bi in range(len(bases)) if bi % 5 == ctx.seed % 5 or bases[bi] in EMPTY_HOST]
+    for bi in lazy:
+        for kind, kq, kf, isnone, op in OPS:
+            reqs.append(("observe", [0, [["push", ["url", bases[bi]]], ["op", "pickle"], op]]))
             meta.append((bi, kind, kq, kf, isnone))
     after = core.check_suite(ctx, "C11-modifiers", reqs, split=True,
                              nontrivial=lambda rs: {repr(a) for _, a in rs},
@@ -80,6 +92,6 @@ def run(ctx):
                 for i, (bi, kind, kq, kf, isnone) in enumerate(meta)]
         ok = core.eval_pred(ctx, "c11_pred", args)
         core.record_failures(ctx, "C11-modifiers", "c11_pred", ok,
-                             lambda m, k=k: {"backend": k, "base": bases[meta[m][0]], "modifier": reqs[m][1][1][1],
+                             lambda m, k=k: {"backend": k, "base": bases[meta[m][0]], "modifier": reqs[m][1][1][-1], "program": reqs[m][1][1],
                                              "before": before[k][meta[m][0]], "after": after[k][m]},
                              kf=core.kf_list(ctx), arglines=args)
